@@ -22,7 +22,8 @@ struct CU {int kind; std::string name; double a, b; int initStatus = -1; std::st
 
 struct Ev
 {
-  int kind;               // 0 evaluate(i, v), 1 timeout(i), 2 aggregate(list of check-up indexes), 3 status list
+  int kind;               // 0 evaluate(i, v), 1 timeout(i), 2 aggregate(list of check-up indexes), 3 status list,
+                          // 4 append synthetic reports (list = per report: number of diagnostics * 16 + number of info keys; i = seed)
   int i; double v;
   std::vector<int> list;  // kind 2: indexes (modulo the number of check-ups); kind 3: statuses 0..3
 };
@@ -201,6 +202,31 @@ Outcome runPlan(const Plan & p, Ctx & c)
       c.log((uint64_t)worst); c.log(all);
       if (worst != wantWorst) {return Outcome::fail("worst-status-mismatch", fmt("event #%zu: worseStatus=%s, maximum is %s", no, model::statusName(worst), model::statusName(wantWorst)));}
       if (all != wantAll) {return Outcome::fail("allok-mismatch", fmt("event #%zu: allOK=%d, expected %d", no, all, wantAll));}
+    } else if (e.kind == 4) {
+      // arbitrary reports (0..5 diagnostics, 0..3 info keys from a small key set, so that keys collide)
+      if (e.list.empty()) {continue;}
+      SIM_COUNT("op.append_synthetic_reports");
+      Rng rr((uint64_t)e.i * 7919 + 13);
+      rc::DiagnosticReport total; std::vector<std::pair<int, std::string>> wantDiag; std::map<std::string, std::string> wantInfo;
+      size_t nrep = 0;
+      for (int code : e.list) {
+        rc::DiagnosticReport r; int nd = (code / 16) % 6, ni = code % 4;
+        for (int k = 0; k < nd; ++k) {int st = (int)rr.below(4); std::string msg = fmt("m%llu", (unsigned long long)rr.below(1000)); r.diagnostics.emplace_back((rc::DiagnosticStatus)st, msg); wantDiag.emplace_back(st, msg);}
+        for (int k = 0; k < ni; ++k) {std::string key = fmt("k%llu", (unsigned long long)rr.below(5)), val = fmt("v%llu", (unsigned long long)rr.below(1000)); if (!r.info.count(key)) {r.info[key] = val; if (!wantInfo.count(key)) {wantInfo[key] = val;} else {SIM_PROBE("synthetic_info_key_collision");}}}
+        if (nd == 0 && ni > 0) {SIM_PROBE("synthetic_report_with_info_but_no_diagnostic");}
+        if (nd == 0 && ni == 0) {SIM_PROBE("synthetic_empty_report");}
+        total += r; ++nrep;
+      }
+      c.note(fmt("#%zu append %zu synthetic reports", no, nrep));
+      size_t pos = 0; bool okd = total.diagnostics.size() == wantDiag.size();
+      for (auto & d : total.diagnostics) {if (okd && ((int)d.status != wantDiag[pos].first || d.message != wantDiag[pos].second)) {okd = false;} ++pos; c.log((uint64_t)d.status);}
+      if (!okd) {return Outcome::fail("aggregate-diagnostics-mismatch", fmt("event #%zu: appending %zu synthetic reports gives %zu diagnostics, expected %zu in order", no, nrep, total.diagnostics.size(), wantDiag.size()));}
+      if (total.info != wantInfo) {return Outcome::fail("aggregate-info-mismatch", fmt("event #%zu: appending %zu synthetic reports: merged info has %zu entries, expected %zu (first key wins)", no, nrep, total.info.size(), wantInfo.size()));}
+      if (!wantDiag.empty()) {
+        int ww = 0; bool aa = true; for (auto & d : wantDiag) {ww = std::max(ww, d.first); aa = aa && d.first == 0;}
+        if ((int)rc::worseStatus(total.diagnostics) != ww) {return Outcome::fail("worst-status-mismatch", fmt("event #%zu: worseStatus of %zu appended diagnostics", no, wantDiag.size()));}
+        if (rc::allOK(total.diagnostics) != aa) {return Outcome::fail("allok-mismatch", fmt("event #%zu: allOK of %zu appended diagnostics", no, wantDiag.size()));}
+      }
     } else {
       if (e.list.empty()) {continue;}
       SIM_COUNT("op.status_list");
@@ -340,6 +366,11 @@ struct PropC18
           for (int k = 0; k < sl; ++k) {s.push_back(bias == 0 ? 0 : (int)r.below(bias == 1 ? 2 : 4));}
           p.ev.push_back(S(s));
         }
+        if (r.chance(0.3)) {
+          std::vector<int> codes; int nr = (int)r.range(1, 20);
+          for (int k = 0; k < nr; ++k) {codes.push_back((int)r.below(6) * 16 + (int)r.below(4));}
+          p.ev.push_back(Ev {4, (int)r.below(1000000), 0, codes});
+        }
         push(e.t + ag, 2, 0);
       }
     }
@@ -368,6 +399,7 @@ struct PropC18
       Json o = Json::object();
       if (e.kind == 0) {o.set("ev", "evaluate").set("checkup", e.i).set("value", e.v);} else if (e.kind == 1) {
         o.set("ev", "timeout").set("checkup", e.i);
+      } else if (e.kind == 4) {o.set("ev", "append_synthetic_reports").set("seed", e.i).set("list", Json::arrayOf(e.list));
       } else {o.set("ev", e.kind == 2 ? "aggregate" : "status_list").set("list", Json::arrayOf(e.list)); if (e.kind == 2 && e.i) {o.set("header_mode", e.i);}}
       ev.push(o);
     }
@@ -385,7 +417,10 @@ struct PropC18
     }
     for (auto & o : j["events"].a()) {
       const std::string & k = o["ev"].s();
-      if (k == "evaluate") {p.ev.push_back(E((int)o["checkup"].i(), o["value"].d()));} else if (k == "timeout") {p.ev.push_back(T((int)o["checkup"].i()));} else {
+      if (k == "evaluate") {p.ev.push_back(E((int)o["checkup"].i(), o["value"].d()));} else if (k == "timeout") {p.ev.push_back(T((int)o["checkup"].i()));} else if (k == "append_synthetic_reports") {
+        std::vector<int> l; for (auto & x : o["list"].a()) {l.push_back((int)x.i());}
+        p.ev.push_back(Ev {4, (int)o["seed"].i(), 0, l});
+      } else {
         std::vector<int> l; for (auto & x : o["list"].a()) {l.push_back((int)x.i());}
         p.ev.push_back(k == "aggregate" ? A(l) : S(l)); if (o.has("header_mode")) {p.ev.back().i = (int)o["header_mode"].i();}
       }
@@ -456,7 +491,7 @@ struct PropC18
     std::string s = o.cls + "|";
     for (auto & u : p.cus) {s += model::kindName(u.kind) + 7; s += ",";}
     s += "|";
-    for (auto & e : p.ev) {s += "ETAS"[e.kind];}
+    for (auto & e : p.ev) {s += "ETASR"[e.kind];}
     return s;
   }
   std::vector<uint64_t> sampleIndexes() const
@@ -472,7 +507,8 @@ struct PropC18
   {
     return {"value_exactly_on_threshold", "value_one_ulp_from_threshold", "zero_epsilon", "reliability_exactly_on_threshold",
       "negative_zero_value", "denormal_value", "huge_value", "evaluate_after_timeout", "status_changed_by_evaluation",
-      "timeout_before_any_evaluation", "timeout_twice_in_a_row", "aggregate_duplicate_info_key", "aggregate_of_20_reports", "list_all_ok", "constructed_with_initial_diagnostic", "aggregate_into_header_report_with_info_only"};
+      "timeout_before_any_evaluation", "timeout_twice_in_a_row", "aggregate_duplicate_info_key", "aggregate_of_20_reports", "list_all_ok", "constructed_with_initial_diagnostic", "aggregate_into_header_report_with_info_only",
+      "synthetic_info_key_collision", "synthetic_report_with_info_but_no_diagnostic", "synthetic_empty_report"};
   }
   Json describe() const
   {
